@@ -15,6 +15,33 @@ import (
 
 var byteSliceType = reflect.TypeOf([]byte(nil))
 
+// every []byte built from a case is allocated with spare capacity holding a sentinel and remembered here,
+// so that a call that writes past len into the caller's backing array can be seen afterwards (C18)
+var spareTracked [][]byte
+
+const spareSentinel = 0x5A
+
+func trackedBytes(b []byte) []byte {
+	buf := make([]byte, len(b)+8)
+	copy(buf, b)
+	for i := len(b); i < len(buf); i++ {
+		buf[i] = spareSentinel
+	}
+	spareTracked = append(spareTracked, buf)
+	return buf[:len(b)]
+}
+
+func spareUntouched() bool {
+	for _, buf := range spareTracked {
+		for i := len(buf) - 8; i < len(buf); i++ {
+			if buf[i] != spareSentinel {
+				return false
+			}
+		}
+	}
+	return true
+}
+
 // ifaceTypes: dynamic types that may sit behind the package's interfaces, by name.
 var ifaceTypes = map[string]reflect.Type{}
 
@@ -222,7 +249,7 @@ func fromSx(v reflect.Value, s *Sx) error {
 			if len(s.B) == 0 {
 				v.Set(reflect.Zero(v.Type()))
 			} else {
-				v.SetBytes(append([]byte(nil), s.B...))
+				v.SetBytes(trackedBytes(s.B))
 			}
 			return nil
 		}
